@@ -1260,6 +1260,7 @@ class Pool:
                         if proc and getattr(proc, '_job_terminated', False):
                             job._set_terminated(exitcode)
                         else:
+                            job._lost_worker_pid = acked_by_gone
                             self.on_job_process_lost(
                                 job, acked_by_gone, exitcode,
                             )
@@ -2015,6 +2016,8 @@ class IMapIterator:
 
     def _set(self, i, obj):
         with self._cond:
+            if i is None:
+                i = self._lost_part()
             self._worker_pids.pop(i, None)
             if self._index == i:
                 self._items.append(obj)
@@ -2042,6 +2045,16 @@ class IMapIterator:
     def _ack(self, i, time_accepted, pid, *args):
         self._worker_pids[i] = pid
 
+    def _lost_part(self):
+        # a failure without index comes from mark_as_worker_lost(): it
+        # belongs to the part the lost worker had accepted (else to the next
+        # part the consumer waits for).  The other parts go on, so a later
+        # loss must be reportable again.
+        lost = getattr(self, '_lost_worker_pid', None)
+        self._worker_lost = None
+        return next((idx for idx, pid in self._worker_pids.items()
+                     if pid == lost), self._index)
+
     def ready(self):
         return self._ready
 
@@ -2058,6 +2071,8 @@ class IMapUnorderedIterator(IMapIterator):
 
     def _set(self, i, obj):
         with self._cond:
+            if i is None:
+                i = self._lost_part()
             self._worker_pids.pop(i, None)
             self._items.append(obj)
             self._index += 1
